@@ -191,6 +191,9 @@ func (d *DeviceRemote) UseCases() []model.UseCaseInformationDataType {
 
 func (d *DeviceRemote) UpdateDevice(description *model.NetworkManagementDeviceDescriptionDataType) {
 	if description != nil {
+		d.muxDescription.Lock()
+		defer d.muxDescription.Unlock()
+
 		if description.DeviceAddress != nil && description.DeviceAddress.Device != nil {
 			d.address = description.DeviceAddress.Device
 		}
